@@ -162,6 +162,16 @@ private theorem clean_render (v : XR) (m : Tok) (hv : v ≠ .fin (-999)) (hm : i
   | ninf => rfl
   | nan => exact hm
 
+/-- a metadata cell reads as its value; a missing-value token reads as the default 0 -/
+private theorem clean_meta (o : Option Rat) (m : Tok) (ho : o ≠ some (-999)) (hm : isMissTok m) :
+    nz (cleanTok (metaTok o m)) = metaVal o := by
+  cases o with
+  | none =>
+    have : cleanTok m = .nan := hm
+    simp [metaTok, metaVal, this, nz, XR.isNan]
+  | some q =>
+    have : q ≠ -999 := fun e => ho (by rw [e])
+    simp [metaTok, metaVal, cleanTok, this, nz, XR.isNan]
 
 /-! ### one rendered data row -/
 
@@ -236,31 +246,31 @@ private theorem rowId_render :
 
 private theorem rowLat_render :
     nz (rowMeta (getCol (headerLine L) (dataLine T L r)) sLat) =
-      if Col.lat ∈ L.cols then .fin (T.station r.1.loc).lat else .fin 0 := by
+      if Col.lat ∈ L.cols then metaVal (T.station r.1.loc).lat else .fin 0 := by
   have e1 : sLat = colKey Col.lat := by decide
   have ht := (h.meta_ok r hr).1
   unfold rowMeta
   rw [e1, getCol_fixed h r _ rfl]
   simp only [aliasOf]
   by_cases h1 : Col.lat ∈ L.cols
-  · simp [h1, cellTok, clean_num _ ht, nz, XR.isNan]
+  · simp [h1, cellTok, clean_meta _ _ ht (h.missMeta_ok _ _)]
   · simp [h1, nz, XR.isNan]
 
 private theorem rowLon_render :
     nz (rowMeta (getCol (headerLine L) (dataLine T L r)) sLon) =
-      if Col.lon ∈ L.cols then .fin (T.station r.1.loc).lon else .fin 0 := by
+      if Col.lon ∈ L.cols then metaVal (T.station r.1.loc).lon else .fin 0 := by
   have e1 : sLon = colKey Col.lon := by decide
   have ht := (h.meta_ok r hr).2.1
   unfold rowMeta
   rw [e1, getCol_fixed h r _ rfl]
   simp only [aliasOf]
   by_cases h1 : Col.lon ∈ L.cols
-  · simp [h1, cellTok, clean_num _ ht, nz, XR.isNan]
+  · simp [h1, cellTok, clean_meta _ _ ht (h.missMeta_ok _ _)]
   · simp [h1, nz, XR.isNan]
 
 private theorem rowElev_render :
     nz (rowElev (getCol (headerLine L) (dataLine T L r))) =
-      if Col.altitude ∈ L.cols ∨ Col.elev ∈ L.cols then .fin (T.station r.1.loc).elev
+      if Col.altitude ∈ L.cols ∨ Col.elev ∈ L.cols then metaVal (T.station r.1.loc).elev
       else .fin 0 := by
   have e1 : sAltitude = colKey Col.altitude := by decide
   have e2 : sElev = colKey Col.elev := by decide
@@ -269,9 +279,9 @@ private theorem rowElev_render :
   rw [e1, e2, getCol_fixed h r _ rfl, getCol_fixed h r _ rfl]
   simp only [aliasOf]
   by_cases h1 : Col.altitude ∈ L.cols
-  · simp [h1, cellTok, clean_num _ ht, nz, XR.isNan]
+  · simp [h1, cellTok, clean_meta _ _ ht (h.missMeta_ok _ _)]
   · by_cases h2 : Col.elev ∈ L.cols
-    · simp [h1, h2, cellTok, clean_num _ ht, nz, XR.isNan]
+    · simp [h1, h2, cellTok, clean_meta _ _ ht (h.missMeta_ok _ _)]
     · simp [h1, h2, nz, XR.isNan]
 
 end Row
@@ -1129,7 +1139,9 @@ structure Faithful (T : Table) (L : Layout) (P : Parsed) : Prop where
   times_mem : ∀ x, x ∈ P.times ↔ ∃ r ∈ T.rows, x = .fin r.1.time
   leads_asc : Asc P.leads
   leads_mem : ∀ x, x ∈ P.leads ↔ ∃ r ∈ T.rows, x = .fin r.1.lead
-  /-- one location per station of the table, carrying that station's metadata -/
+  /-- one location per station of the table, carrying that station's metadata (`locOf`: a
+  coordinate the station does not know — a missing-value token on its rows — reads 0, like an absent
+  column, whatever the rows before it say) -/
   locs_nodup : P.locs.Nodup
   locs_mem : ∀ l, l ∈ P.locs ↔ ∃ r ∈ T.rows, l = locOf T L r.1.loc
   /-- ids: those of the file, or 0,1,2,… when the file has no id column -/
@@ -1390,13 +1402,14 @@ def rowM (b : Rat) : Row := fun f =>
   | .fcst => .fin b
   | _ => .nan
 
-/-- 2 times × 2 lead times × 2 locations, one case absent, one row with missing obs and p5 -/
+/-- 2 times × 2 lead times × 2 locations, one case absent, one row with missing obs and p5;
+the altitude of location 41 is not known (a missing-value token on each of its rows) -/
 def T0 : Table where
   rows := [(⟨1325376000, 0, 3⟩, row 1 2), (⟨1325376000, 6, 3⟩, row 3 4),
            (⟨1325376000, 0, 41⟩, row 5 6), (⟨1325376000, 6, 41⟩, rowM 8),
            (⟨1325419200, 0, 3⟩, row 9 10), (⟨1325419200, 6, 3⟩, row 11 12),
            (⟨1325419200, 6, 41⟩, row 15 16)]
-  station := fun id => if id = 3 then ⟨50, 10, 12⟩ else ⟨42, 23, 341⟩
+  station := fun id => if id = 3 then ⟨some 50, some 10, some 12⟩ else ⟨some 42, some 23, none⟩
   varName := some ["Weird".toList, "variable".toList]
   x0 := some 0
 
@@ -1413,6 +1426,7 @@ def La : Layout where
   dateOf := fun _ => 0
   hourOf := fun _ => 0
   miss := fun _ _ => .bad "NA"
+  missMeta := fun _ _ => .bad "NA"
   spell := fun _ _ => ([], .bad "")
   blocks := [[.varName, .x0 []], [.other [⟨"comment".toList, .bad "", .bad ""⟩]]]
 
@@ -1425,6 +1439,7 @@ def Lb : Layout where
   dateOf := fun _ => 20120101
   hourOf := fun c => if c.time = 1325376000 then 0 else 12
   miss := fun _ _ => .num (-999)
+  missMeta := fun c _ => if c.lead = 0 then .num (-999) else .nan
   spell := fun _ _ => ("x".toList, .bad "")
   blocks := [[], [], [.other [⟨"units".toList, .bad "", .bad ""⟩]], [], [], [], [], [],
              [.x0 [⟨"extra".toList, .bad "", .bad ""⟩], .varName]]
@@ -1476,8 +1491,9 @@ theorem wfa : WF T0 La where
       intro c; unfold leadOK; rw [if_pos (by decide +kernel)]
     simp only [e]; decide +kernel)
   id_ok := T0_cases (fun c => c.loc ≠ -999) (by decide +kernel)
-  meta_ok := T0_cases (fun c => (T0.station c.loc).lat ≠ -999 ∧ (T0.station c.loc).lon ≠ -999 ∧
-    (T0.station c.loc).elev ≠ -999) (by decide +kernel)
+  meta_ok := T0_cases (fun c => (T0.station c.loc).lat ≠ some (-999) ∧
+    (T0.station c.loc).lon ≠ some (-999) ∧ (T0.station c.loc).elev ≠ some (-999)) (by decide +kernel)
+  missMeta_ok := fun _ _ => rfl
   loc_inj := fun hi => absurd hi (by decide +kernel)
   val_ok := T0_val
   miss_ok := fun _ _ => rfl
@@ -1525,8 +1541,9 @@ theorem wfb : WF T0 Lb where
       intro c; unfold leadOK; rw [if_pos (by decide +kernel)]
     simp only [e]; decide +kernel)
   id_ok := T0_cases (fun c => c.loc ≠ -999) (by decide +kernel)
-  meta_ok := T0_cases (fun c => (T0.station c.loc).lat ≠ -999 ∧ (T0.station c.loc).lon ≠ -999 ∧
-    (T0.station c.loc).elev ≠ -999) (by decide +kernel)
+  meta_ok := T0_cases (fun c => (T0.station c.loc).lat ≠ some (-999) ∧
+    (T0.station c.loc).lon ≠ some (-999) ∧ (T0.station c.loc).elev ≠ some (-999)) (by decide +kernel)
+  missMeta_ok := fun c _ => by simp only [isMissTok, Lb]; split <;> simp [cleanTok]
   loc_inj := fun hi => absurd hi (by decide +kernel)
   val_ok := T0_val
   miss_ok := fun _ _ => by simp [isMissTok, Lb, cleanTok]
@@ -1542,12 +1559,13 @@ theorem wfb : WF T0 Lb where
   x0_written := fun _ => ⟨[⟨"extra".toList, .bad "", .bad ""⟩], by decide +kernel⟩
   x1_written := fun hu => by simp [T0] at hu
 
-/-- the model really computes the table from the first file … -/
+/-- the model really computes the table from the first file (location 41, whose altitude cells
+are `NA`, has elevation 0 — not the 12 of location 3 on the rows before it) … -/
 def checkA : Bool :=
   match parse (render T0 La) with
   | .ok P =>
     decide (P.times = [.fin 1325376000, .fin 1325419200]) && decide (P.leads = [.fin 0, .fin 6]) &&
-    decide (P.locs = [⟨.fin 3, .fin 50, .fin 10, .fin 12⟩, ⟨.fin 41, .fin 42, .fin 23, .fin 341⟩]) &&
+    decide (P.locs = [⟨.fin 3, .fin 50, .fin 10, .fin 12⟩, ⟨.fin 41, .fin 42, .fin 23, .fin 0⟩]) &&
     decide (P.arr P.locs .obs = [.fin 1, .fin 5, .fin 3, .nan, .fin 9, .nan, .fin 11, .fin 15]) &&
     decide (P.arr4 P.locs .thr P.thresholds =
       [.fin (1/2), .fin (1/2), .fin (1/2), .nan, .fin (1/2), .nan, .fin (1/2), .fin (1/2)]) &&
@@ -1562,7 +1580,7 @@ def checkB : Bool :=
   match parse (render T0 Lb) with
   | .ok P =>
     decide (P.times = [.fin 1325376000, .fin 1325419200]) && decide (P.leads = [.fin 0, .fin 6]) &&
-    decide (P.locs = [⟨.fin 41, .fin 42, .fin 23, .fin 341⟩, ⟨.fin 3, .fin 50, .fin 10, .fin 12⟩]) &&
+    decide (P.locs = [⟨.fin 41, .fin 42, .fin 23, .fin 0⟩, ⟨.fin 3, .fin 50, .fin 10, .fin 12⟩]) &&
     decide (P.arr P.locs .obs = [.fin 5, .fin 1, .nan, .fin 3, .nan, .fin 9, .fin 15, .fin 11]) &&
     decide (P.thresholds = [.fin 5]) &&
     decide (P.var = ⟨some ["Weird".toList, "variable".toList], none, some (.fin 0), none⟩)
